@@ -377,7 +377,7 @@ def inconclusive(counters, evaluations, tier):
 
 def run_shard(rec):
     quick = rec.tier == 'quick'
-    rec.deadline = time.time() + (240 if quick else 900)
+    rec.deadline = time.time() + (300 if quick else 900)
     ex_attrs = expression_attrs()
     pool = hostile_pool(ex_attrs)
     idx = 0
